@@ -29,7 +29,7 @@ def _sum(xs):
     return t
 
 
-def _recompute(env, r, tag, S, hs, dgap):
+def _recompute(env, r, tag, S, hs, dgap, free=False):
     c = copy.copy(r.core)
     real = r.core
     dims0 = real._geom_params['dims']
@@ -44,7 +44,11 @@ def _recompute(env, r, tag, S, hs, dgap):
                 if n == 0:
                     kinds[key] = (0.0, hs / 2)
                 else:
-                    pp = env.pos('%spitch_kind%d' % (tag, len(kinds)), hi=10, actual=float(dims0[a, s_, 0]))
+                    # the mesh pitch of the second copy is a free input (any bundle pitch with n * pitch < hex side is
+                    # constructible), not derived state: no `actual` value, so a counterexample with different meshes is
+                    # replayed with the solver's pitch
+                    pp = env.pos('%spitch_kind%d' % (tag, len(kinds)), hi=10, **({'actual': float(dims0[a, s_, 0])} if free is False else
+                                                                                   {'nominal': 0.93 * float(dims0[a, s_, 0])}))
                     kinds[key] = (pp, (hs - n * pp) / 2)
                     env.assume(kinds[key][1] > 0)
             dims[a, s_, 0], dims[a, s_, 1] = kinds[key]
@@ -107,7 +111,7 @@ def body_geometry(env):
                            key='Rcond_not_symmetric')
                     env.gt('conduction resistance positive (%d,%d)' % (i + 1, k + 1), c._Rcond[i, j], 0.0)
         # total flow area depends only on layout, hex side and gap width -- not on the meshes
-        c2 = _recompute(env, r, 'm2_', S, hs, dgap)
+        c2 = _recompute(env, r, 'm2_', S, hs, dgap, free=True)
         env.eq('total gap flow area independent of the assembly meshes', _sum(c.gap_params['area']), _sum(c2.gap_params['area']),
                tol=1e-9, key='gap_area_depends_on_mesh')
         for f in range(n_sc):
